@@ -39,7 +39,7 @@ HOOKS = {
     'guard': 'BLUETOE_VERIF_HOOKS',
     'enable': 'every harness is compiled with -DBLUETOE_VERIF_HOOKS (see BASE_FLAGS in ./check)',
     'baseline_off_cmd': 'cmake --build /repo/_build -j16 -- -k 0 >/dev/null 2>&1; ctest --test-dir /repo/_build -j8 --timeout 900',
-    'source_commits': [],
+    'source_commits': ['9843ce8', '52663a4'],
     'add_only': True,
 }
 
